@@ -268,42 +268,72 @@ func ruleALBuf(c *Ctx) {
 	if !c.Anchor(next != nil, "(*ReadBuf).Next") {
 		return
 	}
+	bufF := uniqueFieldWhere(rbT, func(t types.Type) bool {
+		sl, ok := t.Underlying().(*types.Slice)
+		return ok && isBasicKind(sl.Elem(), types.Byte)
+	})
+	// functions whose result is a view of the block buffer: Next by contract; unexported helpers that hand a view
+	// back are sources for their callers in turn (computed to a fixpoint)
+	viewFns := map[*ssa.Function]bool{next: true}
 	nConsumers := 0
-	for _, fn := range P.ModuleFuncs() {
-		var seeds []ssa.Value
-		for _, b := range fn.Blocks {
-			for _, in := range b.Instrs {
-				switch x := in.(type) {
-				case *ssa.Call:
-					if x.Call.StaticCallee() == next {
-						if ex := extractOf(x, 0); ex != nil {
-							seeds = append(seeds, ex)
+	for round := 0; round < 4; round++ {
+		grew := false
+		nConsumers = 0
+		e.reports, e.pos = map[string]string{}, map[string]string{}
+		var oks []func()
+		for _, fn := range P.ModuleFuncs() {
+			var seeds []ssa.Value
+			for _, b := range fn.Blocks {
+				for _, in := range b.Instrs {
+					switch x := in.(type) {
+					case *ssa.Call:
+						if sc := x.Call.StaticCallee(); sc != nil && viewFns[sc] {
+							if ex := extractOf(x, 0); ex != nil {
+								seeds = append(seeds, ex)
+							} else if sc.Signature.Results().Len() == 1 {
+								seeds = append(seeds, x)
+							}
 						}
-					}
-				case *ssa.Slice:
-					// d.buf[a:b] inside ReadBuf's own methods
-					if ld, ok := x.X.(*ssa.UnOp); ok && ld.Op == token.MUL {
-						if fa, ok := ld.X.(*ssa.FieldAddr); ok && fieldName(fa.X.Type(), fa.Field) == "buf" && typeKey(fa.X.Type()) == "*avro.ReadBuf" {
-							seeds = append(seeds, x)
+					case *ssa.Slice:
+						// d.buf[a:b] inside ReadBuf's own methods
+						if ld, ok := x.X.(*ssa.UnOp); ok && ld.Op == token.MUL {
+							if fa, ok := ld.X.(*ssa.FieldAddr); ok && fieldName(fa.X.Type(), fa.Field) == bufF && typeKey(fa.X.Type()) == "*avro.ReadBuf" {
+								seeds = append(seeds, x)
+							}
 						}
 					}
 				}
 			}
+			if len(seeds) == 0 {
+				continue
+			}
+			nConsumers++
+			before := len(e.reports)
+			res := e.analyse(fn, seeds, "obtained in "+fnKey(fn))
+			key := fnKey(fn) + "/block-buffer-views"
+			// returning the view is Next's own contract; an unexported helper may pass one on to callers that are
+			// judged in turn; nobody else may
+			if res.returnsAlias && !viewFns[fn] {
+				if fn.Object() != nil && !fn.Object().Exported() && fn.Parent() == nil {
+					viewFns[fn] = true
+					grew = true
+				} else {
+					e.reports[key+"/returned"] = "a view of the block buffer is returned to the caller"
+					e.pos[key+"/returned"] = P.pos(fn.Pos())
+				}
+			}
+			if len(e.reports) == before {
+				fn, key, n := fn, key, len(seeds)
+				oks = append(oks, func() {
+					c.OK(key, P.pos(fn.Pos()), fmt.Sprintf("%d view(s) of the block buffer: only indexed, copied from, converted by copy or handed to functions that do the same", n))
+				})
+			}
 		}
-		if len(seeds) == 0 {
-			continue
-		}
-		nConsumers++
-		before := len(e.reports)
-		res := e.analyse(fn, seeds, "obtained in "+fnKey(fn))
-		key := fnKey(fn) + "/block-buffer-views"
-		// returning the view is Next's own contract; nobody else may
-		if res.returnsAlias && fn != next {
-			e.reports[key+"/returned"] = "a view of the block buffer is returned to the caller"
-			e.pos[key+"/returned"] = P.pos(fn.Pos())
-		}
-		if len(e.reports) == before {
-			c.OK(key, P.pos(fn.Pos()), fmt.Sprintf("%d view(s) of the block buffer: only indexed, copied from, converted by copy or handed to functions that do the same", len(seeds)))
+		if !grew {
+			for _, f := range oks {
+				f()
+			}
+			break
 		}
 	}
 	var ks []string
@@ -351,7 +381,7 @@ func ruleALStr(c *Ctx) {
 	}
 	isSData := func(v ssa.Value) bool {
 		fa, ok := v.(*ssa.FieldAddr)
-		return ok && fieldName(fa.X.Type(), fa.Field) == "sData" && typeKey(fa.X.Type()) == "*avro.ResourceBank"
+		return ok && fieldName(fa.X.Type(), fa.Field) == resourceRoles(P).sData && typeKey(fa.X.Type()) == "*avro.ResourceBank"
 	}
 	isSDataLoad := func(v ssa.Value) bool {
 		u, ok := v.(*ssa.UnOp)
@@ -467,6 +497,10 @@ func ruleALBump(c *Ctx) {
 	if !c.Anchor(al != nil, "(*ResourceBank).Alloc") {
 		return
 	}
+	R := resourceRoles(P)
+	if !c.Anchor(R.ok, "roles of the bank's fields (arena table, string store; entry: type pointer, array, capacity, length, element size)") {
+		return
+	}
 	key := fnKey(al)
 	fieldLoad := func(v ssa.Value, name string) bool {
 		u, ok := v.(*ssa.UnOp)
@@ -497,11 +531,11 @@ func ruleALBump(c *Ctx) {
 	} else if call, ok := ptr.(*ssa.Call); ok && isBuiltinCall(call, "Add") && len(call.Call.Args) == 2 {
 		base, off = call.Call.Args[0], call.Call.Args[1]
 	}
-	if base != nil && fieldLoad(base, "array") {
+	if base != nil && fieldLoad(base, R.array) {
 		if mul, ok := stripConv(off).(*ssa.BinOp); ok && mul.Op == token.MUL {
-			if fieldLoad(mul.Y, "size") {
+			if fieldLoad(mul.Y, R.size) {
 				idx, okPtr = mul.X, true
-			} else if fieldLoad(mul.X, "size") {
+			} else if fieldLoad(mul.X, R.size) {
 				idx, okPtr = mul.Y, true
 			}
 		}
@@ -513,15 +547,15 @@ func ruleALBump(c *Ctx) {
 	for _, b := range al.Blocks {
 		for _, in := range b.Instrs {
 			if st, ok := in.(*ssa.Store); ok {
-				if fa, ok := st.Addr.(*ssa.FieldAddr); ok && fieldName(fa.X.Type(), fa.Field) == "len" {
+				if fa, ok := st.Addr.(*ssa.FieldAddr); ok && fieldName(fa.X.Type(), fa.Field) == R.len {
 					lenStore = st
 				}
 			}
 		}
 	}
 	okIdx := false
-	if lenStore != nil && idx != nil && fieldLoad(idx, "len") {
-		if bo, ok := lenStore.Val.(*ssa.BinOp); ok && bo.Op == token.ADD && fieldLoad(bo.X, "len") {
+	if lenStore != nil && idx != nil && fieldLoad(idx, R.len) {
+		if bo, ok := lenStore.Val.(*ssa.BinOp); ok && bo.Op == token.ADD && fieldLoad(bo.X, R.len) {
 			if one, ok := constInt(bo.Y); ok && one == 1 && dominatesInstr(idx.(ssa.Instruction), lenStore) && dominatesInstr(lenStore, ret) {
 				okIdx = true
 			}
@@ -539,7 +573,7 @@ func ruleALBump(c *Ctx) {
 	if grow != nil {
 		full := false
 		for _, cmp := range cmpFactsAt(grow.Block()) {
-			if cmp.Op == token.EQL && (fieldLoad(cmp.X, "len") && fieldLoad(cmp.Y, "cap") || fieldLoad(cmp.X, "cap") && fieldLoad(cmp.Y, "len")) {
+			if cmp.Op == token.EQL && (fieldLoad(cmp.X, R.len) && fieldLoad(cmp.Y, R.cap) || fieldLoad(cmp.X, R.cap) && fieldLoad(cmp.Y, R.len)) {
 				full = true
 			}
 		}
@@ -549,9 +583,9 @@ func ruleALBump(c *Ctx) {
 				if st, ok := in.(*ssa.Store); ok {
 					if fa, ok := st.Addr.(*ssa.FieldAddr); ok {
 						switch fieldName(fa.X.Type(), fa.Field) {
-						case "array":
+						case R.array:
 							arrStored = st.Val == ssa.Value(grow)
-						case "cap":
+						case R.cap:
 							capStored = st.Val == grow.Call.Args[1]
 						}
 					}
@@ -569,14 +603,14 @@ func ruleALBump(c *Ctx) {
 				bigger = true
 			}
 		}
-		okGrow = full && arrStored && capStored && bigger && fieldLoad(grow.Call.Args[0], "ptyp")
+		okGrow = full && arrStored && capStored && bigger && fieldLoad(grow.Call.Args[0], R.ptyp)
 	}
 	c.Check(okGrow, key+"/growth", P.pos(al.Pos()), "exactly when len == cap a new array of the type is allocated, installed, and its size recorded as cap", "growth does not install a new typed array whose size is recorded as the capacity exactly when the arena is full")
 	// the no-growth path needs len != cap, i.e. the full test dominates the slot use on one edge: covered by growth being on the equal edge and joining
 	c.Rule("AL-CLR", "", 0)
 	okClr := false
 	for _, cs := range callsIn(al) {
-		if cs.Static != nil && cs.Static.Name() == "typedmemclr" && cs.Common.Args[1] == ptr && fieldLoad(cs.Common.Args[0], "ptyp") && dominatesInstr(cs.Instr, ret) {
+		if cs.Static != nil && cs.Static.Name() == "typedmemclr" && cs.Common.Args[1] == ptr && fieldLoad(cs.Common.Args[0], R.ptyp) && dominatesInstr(cs.Instr, ret) {
 			okClr = true
 		}
 	}
@@ -684,11 +718,11 @@ func ruleALBump(c *Ctx) {
 						continue
 					}
 					switch fieldName(fa.X.Type(), fa.Field) {
-					case "len":
+					case R.len:
 						if z, ok := constInt(x.Val); !ok || z != 0 {
 							bad = "len set to a non-zero value"
 						}
-					case "sData":
+					case R.sData:
 					default:
 						bad = "field " + fieldName(fa.X.Type(), fa.Field) + " modified"
 					}
@@ -709,7 +743,7 @@ func ruleALBump(c *Ctx) {
 			for b := range l.Blocks {
 				for _, in := range b.Instrs {
 					if st, ok := in.(*ssa.Store); ok {
-						if fa, ok := st.Addr.(*ssa.FieldAddr); ok && fieldName(fa.X.Type(), fa.Field) == "len" && strings.Contains(accessPath(fa.X), "->types)") {
+						if fa, ok := st.Addr.(*ssa.FieldAddr); ok && fieldName(fa.X.Type(), fa.Field) == R.len && strings.Contains(accessPath(fa.X), "->"+R.types+")") {
 							okLoop = true
 						}
 					}
@@ -753,6 +787,10 @@ func ruleALKey(c *Ctx) {
 		return
 	}
 	typ := fn.Params[reflectTypeParamIdx(fn)]
+	R := resourceRoles(P)
+	if !c.Anchor(R.ok, "roles of the bank's fields") {
+		return
+	}
 	// wantLike: v is the data word of the requested reflect.Type
 	wantLike := func(v ssa.Value) bool {
 		src := rtypeSource(v)
@@ -787,7 +825,7 @@ func ruleALKey(c *Ctx) {
 					continue
 				}
 				fa, isFA := ld.X.(*ssa.FieldAddr)
-				if isFA && fieldName(fa.X.Type(), fa.Field) == "ptyp" && (fa.X == v || accessPath(fa.X) == accessPath(v)) && wantLike(pair[1]) {
+				if isFA && fieldName(fa.X.Type(), fa.Field) == R.ptyp && (fa.X == v || accessPath(fa.X) == accessPath(v)) && wantLike(pair[1]) {
 					ok = true
 				}
 			}
@@ -810,13 +848,13 @@ func ruleALKey(c *Ctx) {
 						if st, ok := r2.(*ssa.Store); ok && st.Addr == ssa.Value(ia) {
 							if ld, ok := st.Val.(*ssa.UnOp); ok && ld.Op == token.MUL {
 								if lit, ok := ld.X.(*ssa.Alloc); ok {
-									if v := literalFields(lit)["ptyp"]; v != nil && wantLike(v) {
+									if v := literalFields(lit)[R.ptyp]; v != nil && wantLike(v) {
 										okNew = true
 									}
 								}
 							}
 						}
-						if fa, ok := r2.(*ssa.FieldAddr); ok && fieldName(fa.X.Type(), fa.Field) == "ptyp" {
+						if fa, ok := r2.(*ssa.FieldAddr); ok && fieldName(fa.X.Type(), fa.Field) == R.ptyp {
 							for _, r3 := range referrersOf(fa) {
 								if st, ok := r3.(*ssa.Store); ok && wantLike(st.Val) {
 									okNew = true
